@@ -418,13 +418,15 @@ def run(res, tier, seed):
         info = common.check_property_file("C18")
         res.proof(info, "cd coq && make && coqc -Q . DS Properties/C18.v  (Print Assumptions parsed)")
         limit = 2400 if tier == "quick" else 12000
-        sel = good[:limit]
+        # (a case that stops at a non-negatable value AND contains a recorded-defect shape further on is only replayed)
+        sel = [c for c in good if c["run"]["ok"] or not c["hazards"]][:limit]
         shard = 400
         ks = list(range(0, len(sel), shard))
         outs = common.coq_eval_many([(f"c18_{k}", cases_v(sel[k:k + shard])) for k in ks], workers=12)
         bad = bad_of(outs, ks)
         # replay of Go's own code for everything else (recorded-defect shapes, malformed sources)
-        others = [c["run"] for c in cases if c not in good] if len(good) != len(cases) else []
+        good_ids = {id(c) for c in sel}
+        others = [c["run"] for c in cases if id(c) not in good_ids]
         others += [r["run"] for r in malformed]
         others = [r for r in others if not r.get("panic")][:limit]
         ks2 = list(range(0, len(others), shard))
